@@ -45,6 +45,14 @@ fn base_lib() -> BTreeMap<String, String> {
     let mut m = BTreeMap::new();
     m.insert("2".to_string(), "# two\n\nbody two\n\n## sub two\n\nmore two\n".to_string());
     m.insert("d/3".to_string(), "# three\n\n[back](../2)\n\ntext three [inl](../2) end\n".to_string());
+    // notes with a link in every kind of place (heading, item, quote, table header and body cell,
+    // ordered item): inlined across directories every one of them has to be re-written
+    for (k, two) in [("d/4", "../2"), ("6", "2")] {
+        m.insert(
+            k.to_string(),
+            "# rich [h](@2)\n\n- item [i](@2)\n\n> quoted [q](@2)\n\n| head [th](@2) |\n|---|\n| cell [tc](@2) |\n\n## sub rich\n\n1. ordered [o](@2)\n".replace("@2", two),
+        );
+    }
     m
 }
 
@@ -83,6 +91,24 @@ fn enumerate_notes(tier: Tier, c10: bool, emit: &mut dyn FnMut(&str)) {
                 emit(&format!("owner={}|text={}", owner, text.replace('\n', "\\n")));
                 let text5 = format!("# a\n\n## b\n\n### c\n\n#### d\n\n##### e\n\n{}", tail);
                 emit(&format!("owner={}|text={}", owner, text5.replace('\n', "\\n")));
+            }
+        }
+        // references to the notes with a link in every kind of place, from both directories
+        for owner in owners() {
+            for rich in ["d/4", "6"] {
+                let url = match (owner, rich) {
+                    ("1", r) => r.to_string(),
+                    (_, "d/4") => "4".to_string(),
+                    _ => "../6".to_string(),
+                };
+                for text in [
+                    format!("# top\n\n[r]({})\n", url),
+                    format!("# top\n\ntext\n\n[r]({})\n\n## sub\n\nbody\n", url),
+                    format!("# top\n\n## mid\n\n[r]({})\n\ntail\n", url),
+                    format!("[r]({})\n\n# top\n\ntext\n", url),
+                ] {
+                    emit(&format!("owner={}|text={}", owner, text.replace('\n', "\\n")));
+                }
             }
         }
         // a section with three own blocks, one of them of each kind in turn, before its sub-sections
@@ -269,7 +295,7 @@ impl Engine for C09 {
         "C09"
     }
     fn rule(&self) -> String {
-        "notes = every block forest up to the bound over {paragraph, #, ##, ###, fenced code, table, block reference to an existing note / a missing note / the note itself / a note in another directory, quote, bullet and ordered lists}, as note 1 (root) and as d/5 (sub-directory), formatted first; every line is sent to codeAction and every offered extract-section / extract-sub-sections / inline-section / inline-quote action is resolved on the real Server; the edit is applied by R9. Oracle: created keys are fresh; extracted notes start with a level-1 heading; the multiset of content leaves over all notes (links compared by the note they resolve to from where they stand) changes exactly by +1 reference per extracted section (titled with its heading) resp. -1 reference per inlined note, the inlined note is deleted; extracting the first sub-section and inlining it again gives the formatted original byte-for-byte. non-trivial = at least one action of these kinds was offered".into()
+        "notes = every block forest up to the bound over {paragraph, #, ##, ###, fenced code, table, block reference to an existing note / a missing note / the note itself / a note in another directory, quote, bullet and ordered lists}, as note 1 (root) and as d/5 (sub-directory), plus references from both to two notes (d/4, 6) that carry a link in a heading, a list item, a quote, a table header cell, a table body cell and an ordered item, formatted first; every line is sent to codeAction and every offered extract-section / extract-sub-sections / inline-section / inline-quote action is resolved on the real Server; the edit is applied by R9. Oracle: created keys are fresh; extracted notes start with a level-1 heading; the multiset of content leaves over all notes (links compared by the note they resolve to from where they stand) changes exactly by +1 reference per extracted section (titled with its heading) resp. -1 reference per inlined note, the inlined note is deleted; extracting the first sub-section and inlining it again gives the formatted original byte-for-byte. non-trivial = at least one action of these kinds was offered".into()
     }
     fn bound(&self, tier: Tier) -> String {
         match tier {
